@@ -81,6 +81,9 @@ let read_pin () =
   | "D" -> let i = oname_of_tok (next ()) in let rd = oname_of_tok (next ()) in
     let rl = oname_of_tok (next ()) in let q = oname_of_tok (next ()) in
     let b = nat_of_int (next_int ()) in PDang (i, rd, rl, q, b)
+  | "A" -> let rd = oname_of_tok (next ()) in
+    let rl = oname_of_tok (next ()) in let q = oname_of_tok (next ()) in
+    let b = nat_of_int (next_int ()) in PAnon (rd, rl, q, b)
   | "X" -> PForeign
   | "L" -> PLoose
   | t -> failwith ("bad pin " ^ t)
@@ -145,8 +148,9 @@ let () =
                (match k with
                 | Inl e -> Buffer.add_string buf ("e:" ^ string_of_outcome e)
                 | Inr (((o, i), q), b) ->
-                  Buffer.add_string buf (Printf.sprintf "k:%d:%s:%s:%d" (if o then 1 else 0)
-                                           (tok_of_oname i) (tok_of_oname q) (int_of_nat b)))) w) c) d) l) (nv_keys a);
+                  Buffer.add_string buf (Printf.sprintf "k:%d:%s:%s:%s" (if o then 1 else 0)
+                                           (tok_of_oname i) (tok_of_oname q)
+                                           (match b with None -> "~" | Some n -> string_of_int (int_of_nat n))))) w) c) d) l) (nv_keys a);
              print_endline (Buffer.contents buf)
            end else
            let a = read_nv () in
